@@ -1,11 +1,37 @@
 # -*- coding: utf-8 -*-
 
-from typing import Any, Dict, List, Optional
+from typing import Any, Dict, List, Mapping, Optional, Sequence
 
 from ..exc import ValidationError
-from ..lang.ast import Document, Field, OperationDefinition
+from ..lang.ast import (
+    Document,
+    FragmentDefinition,
+    OperationDefinition,
+    Selection,
+)
 from ..schema import Schema
-from .collect_fields import selected_fields
+from .collect_fields import collect_fields_untyped
+
+
+def _nesting_levels(
+    selections: Sequence[Selection],
+    fragments: Mapping[str, FragmentDefinition],
+    variables: Mapping[str, Any],
+) -> int:
+    # Length of the longest chain of selected fields starting in this
+    # selection set, traversing inline fragments and fragment spreads and
+    # considering all the fields merged under a single response key.
+    levels = 0
+    collected = collect_fields_untyped(selections, fragments, variables)
+    for fields in collected.values():
+        for field in fields:
+            field_levels = 1
+            if field.selection_set is not None:
+                field_levels += _nesting_levels(
+                    field.selection_set.selections, fragments, variables
+                )
+            levels = max(levels, field_levels)
+    return levels
 
 
 class MaxDepthValidationRule:
@@ -72,16 +98,13 @@ class MaxDepthValidationRule:
             ):
                 continue
 
-            paths = (
-                p
-                for f in op.selection_set.selections
-                if isinstance(f, Field)
-                for p in selected_fields(
-                    f, fragments=fragments, variables=variables, maxdepth=None,
+            depth = max(
+                0,
+                _nesting_levels(
+                    op.selection_set.selections, fragments, variables
                 )
+                - 1,
             )
-
-            depth = max(x.count("/") + 1 for x in paths)
 
             if depth > self.max_depth:
                 errors.append(
